@@ -21,49 +21,94 @@
 (* its program and k alone (ObservableIsFunctionOfProgram), builders are   *)
 (* immutable (RecipeImmutable), registries are monotone (RegMonotone), no  *)
 (* executor's global state contains another program's keys (NoLeak).       *)
+(* Extensions (same module, switched by constants):                        *)
+(*  - type interning: a program's types are looked up in the process-wide  *)
+(*    intern table under a key; programs p and p+1 (p even) are "type      *)
+(*    neighbours" - same shape, one parameter apart.  With FullKey the key *)
+(*    holds every parameter; FullKey = FALSE is the named fault "key drops *)
+(*    a parameter" (TLC must then violate SchemaIsOwn).                    *)
+(*  - GlobalContext (Ctx = TRUE): the history opens a context; every build *)
+(*    takes the context's state as its seed, a finished run copies its     *)
+(*    global state back (what the library's testing harness does), runs    *)
+(*    follow one another.  The in-memory recorder erases its key when it   *)
+(*    starts (EraseOnStart); FALSE is the named fault "recorder appends to *)
+(*    the buffer an earlier run left behind" (violates RecordedIsOwn).     *)
 (* TLC explores every history of the bounded size; finished histories are  *)
 (* printed as token lists and replayed into the real code by harness/iso   *)
 (* (the phase gate is GraphExecutorBuilder::phase_runner).                 *)
 (***************************************************************************)
 EXTENDS Integers, Sequences, FiniteSets, TLC, Json
 
-CONSTANTS NProg, MaxBuilders, MaxExecs, MaxSteps, Emit
+CONSTANTS NProg, MaxBuilders, MaxExecs, MaxSteps, Emit,
+          Ctx,            \* the history runs inside one GlobalContext
+          FullKey,        \* the intern key holds every type parameter
+          EraseOnStart    \* the recorder drops what an earlier run left under its key
 
-VARIABLES reg, recipe, priv, hist, freed
-vars == <<reg, recipe, priv, hist, freed>>
+VARIABLES reg, recipe, priv, hist, freed, ctx
+vars == <<reg, recipe, priv, hist, freed, ctx>>
 
-Init == /\ reg = {} /\ recipe = <<>> /\ priv = <<>> /\ hist = <<>> /\ freed = FALSE
+Shape(p) == p \div 2
+TypeOf(p) == <<Shape(p), p % 2>>
+KeyOf(p) == IF FullKey THEN TypeOf(p) ELSE <<Shape(p), 0>>
+
+Init == /\ reg = <<>> /\ recipe = <<>> /\ priv = <<>> /\ hist = (IF Ctx THEN << <<"G", 0>> >> ELSE <<>>) /\ freed = FALSE
+        /\ ctx = {}
+
+Intern(r, p) == IF KeyOf(p) \in DOMAIN r THEN r ELSE [k \in DOMAIN r \cup {KeyOf(p)} |-> IF k = KeyOf(p) THEN TypeOf(p) ELSE r[k]]
+
+AllDone == \A e \in 1..Len(priv) : priv[e].done
 
 Build(p) == /\ ~freed /\ Len(recipe) < MaxBuilders
-            /\ recipe' = Append(recipe, [prog |-> p, seed |-> {<<"seed", p>>}])
-            /\ reg' = reg \cup {p}                      \* wiring interns types / runtime types
+            /\ (Ctx => AllDone)
+            /\ reg' = Intern(reg, p)                    \* wiring interns types / runtime types
+            /\ recipe' = Append(recipe, [prog |-> p, schema |-> reg'[KeyOf(p)],
+                                         seed |-> (IF Ctx THEN ctx ELSE {}) \cup {<<"seed", p>>}])
             /\ hist' = Append(hist, <<"B", p>>)
-            /\ UNCHANGED <<priv, freed>>
+            /\ UNCHANGED <<priv, freed, ctx>>
 
 Make(b) == /\ ~freed /\ Len(priv) < MaxExecs /\ b \in 1..Len(recipe)
-           /\ priv' = Append(priv, [b |-> b, phase |-> 0, gs |-> recipe[b].seed, obs |-> <<>>])   \* the seed is COPIED
+           /\ (Ctx => AllDone)
+           /\ priv' = Append(priv, [b |-> b, phase |-> 0, gs |-> recipe[b].seed, obs |-> <<>>, done |-> FALSE])   \* the seed is COPIED
            /\ hist' = Append(hist, <<"X", b - 1>>)
-           /\ UNCHANGED <<reg, recipe, freed>>
+           /\ UNCHANGED <<reg, recipe, freed, ctx>>
+
+\* what phase k of executor e does to its own copy of the global state: phase 1 is the start (the recorder resets its
+\* buffer), later phases write the program's key and append to the recording
+Phase(e, g, k) ==
+    LET p == recipe[priv[e].b].prog
+        g1 == IF k = 1 /\ EraseOnStart THEN {x \in g : x[1] # "rec"} ELSE g
+    IN g1 \cup {<<"k", p, k>>} \cup (IF k > 1 THEN {<<"rec", e, k>>} ELSE {})
 
 \* one phase of executor e: reads its own state, its recipe and the registries; writes only its own state
-Step(e) == /\ ~freed /\ e \in 1..Len(priv) /\ priv[e].phase < MaxSteps
+Step(e) == /\ ~freed /\ e \in 1..Len(priv) /\ priv[e].phase < MaxSteps /\ ~priv[e].done
            /\ LET p == recipe[priv[e].b].prog
                   k == priv[e].phase + 1
               IN  priv' = [priv EXCEPT ![e].phase = k,
-                                       ![e].gs = @ \cup {<<"k", p, k>>},
-                                       ![e].obs = Append(@, <<p, k, p \in reg>>)]
+                                       ![e].gs = Phase(e, @, k),
+                                       ![e].obs = Append(@, <<p, k, recipe[priv[e].b].schema>>)]
            /\ hist' = Append(hist, <<"S", e - 1>>)
-           /\ UNCHANGED <<reg, recipe, freed>>
+           /\ UNCHANGED <<reg, recipe, freed, ctx>>
 
-Free == /\ ~freed /\ Len(priv) >= 1
+\* inside a context: executor e runs on to the end of its run, then its global state is copied back
+RECURSIVE RunOn(_, _, _)
+RunOn(e, g, k) == IF k > MaxSteps THEN g ELSE RunOn(e, Phase(e, g, k), k + 1)
+Finish(e) == /\ Ctx /\ ~freed /\ e \in 1..Len(priv) /\ ~priv[e].done
+             /\ LET g == RunOn(e, priv[e].gs, priv[e].phase + 1)
+                IN /\ priv' = [priv EXCEPT ![e].done = TRUE, ![e].gs = g, ![e].phase = MaxSteps]
+                   /\ ctx' = g
+             /\ hist' = hist \o << <<"F", 0>>, <<"W", e - 1>> >>
+             /\ UNCHANGED <<reg, recipe, freed>>
+
+Free == /\ ~freed /\ Len(priv) >= 1 /\ (Ctx => AllDone)
         /\ freed' = TRUE
         /\ hist' = Append(hist, <<"F", 0>>)
         /\ (Emit => PrintT(<<"ISO", ToJson(hist')>>))
-        /\ UNCHANGED <<reg, recipe, priv>>
+        /\ UNCHANGED <<reg, recipe, priv, ctx>>
 
 Next == \/ \E p \in 0..(NProg - 1) : Build(p)
         \/ \E b \in 1..MaxBuilders : Make(b)
         \/ \E e \in 1..MaxExecs : Step(e)
+        \/ \E e \in 1..MaxExecs : Finish(e)
         \/ Free
 Spec == Init /\ [][Next]_vars
 
@@ -73,9 +118,16 @@ ObservableIsFunctionOfProgram ==
         recipe[priv[e1].b].prog = recipe[priv[e2].b].prog =>
             \A k \in 1..Len(priv[e1].obs) : k <= Len(priv[e2].obs) => priv[e1].obs[k] = priv[e2].obs[k]
 
-NoLeak == \A e \in 1..Len(priv) : \A x \in priv[e].gs :
+\* outside a context no executor's global state contains another program's keys
+NoLeak == ~Ctx => \A e \in 1..Len(priv) : \A x \in priv[e].gs :
               x[1] = "k" => x[2] = recipe[priv[e].b].prog
 
+\* a builder's types are its own program's, whatever was interned before
+SchemaIsOwn == \A b \in 1..Len(recipe) : recipe[b].schema = TypeOf(recipe[b].prog)
+
+\* once a run has started, its recording holds its own ticks only
+RecordedIsOwn == \A e \in 1..Len(priv) : priv[e].phase >= 1 => \A x \in priv[e].gs : x[1] = "rec" => x[2] = e
+
 RecipeImmutable == [][\A b \in 1..Len(recipe) : recipe'[b] = recipe[b]]_vars
-RegMonotone     == [][reg \subseteq reg']_vars
+RegMonotone     == [][\A k \in DOMAIN reg : k \in DOMAIN reg' /\ reg'[k] = reg[k]]_vars
 =============================================================================
